@@ -88,6 +88,15 @@ func (r *responseStorer) StoreResponse(
 	}
 
 	if refIndex < 0 || refIndex >= len(refs) {
+		// A reference to the same entry may exist although the lookup did not
+		// select it (e.g. "Vary: *" never matches): replace it instead of letting
+		// the index grow with every request.
+		refIndex = slices.IndexFunc(refs, func(ref *ResponseRef) bool {
+			return ref != nil && ref.ResponseID == responseID && ref.Vary == vary &&
+				maps.Equal(ref.VaryResolved, varyResolved)
+		})
+	}
+	if refIndex < 0 || refIndex >= len(refs) {
 		refs = append(refs, refEntry) // New response reference
 	} else {
 		refs[refIndex] = refEntry // Update existing response reference
